@@ -213,26 +213,27 @@ fn main() {
     // constructed in between (whatever identifies a table — an id, an address, a hash — then has the
     // chance to collide modulo small powers of two).
     {
+        let pool_a = POOLS[1];
+        let pool_b: &[&str] = &["1+2*3!", "2^3^2-1", "7!!", "1-2-3"];
+        let (fresh_a, fresh_b): (Shared<'static>, Shared<'static>) = (make(1), Arc::new(pratt_b()));
+        let want_a: Vec<String> = pool_a.iter().map(|s| show(&fresh_a, s, false)).collect();
+        let want_b: Vec<String> = pool_b.iter().map(|s| show(&fresh_b, s, false)).collect();
+        // the shared tables: A, then B tables that are the 16th, 32nd, 64th and 128th table after A
         let a: Shared<'static> = make(1);
         let mut others: Vec<Shared<'static>> = Vec::new();
-        for gap in [15usize, 31, 63, 127] {
+        for gap in [15usize, 15, 31, 63] {
             for _ in 0..gap {
                 drop(pratt());
             }
             others.push(Arc::new(pratt_b()));
         }
-        let pool_a = POOLS[1];
-        let pool_b: &[&str] = &["1+2*3!", "2^3^2-1", "7!!", "1-2-3"];
-        let fresh_b: Shared<'static> = Arc::new(pratt_b());
-        let want_a: Vec<String> = pool_a.iter().map(|s| show(&make(1), s, false)).collect();
-        let want_b: Vec<String> = pool_b.iter().map(|s| show(&fresh_b, s, false)).collect();
         let (want_a, want_b, others) = (Arc::new(want_a), Arc::new(want_b), Arc::new(others));
         let hs: Vec<_> = (0..threads)
             .map(|t| {
                 let (a, others, want_a, want_b) = (a.clone(), others.clone(), want_a.clone(), want_b.clone());
                 std::thread::spawn(move || {
                     let mut n = 0u64;
-                    for k in 0..4usize {
+                    for k in 0..6usize {
                         let i = (k + t) % pool_a.len();
                         assert_eq!(&show(&a, pool_a[i], false), &want_a[i], "C13: thread {} pratt A input {:?} differs from sequential use", t, pool_a[i]);
                         let b = &others[(k + t) % others.len()];
